@@ -1,6 +1,7 @@
 import QR.Model.Compile
 import QR.Spec.Reader
 import QR.Spec.Penalty
+import QR.Spec.MaskChoice
 /-
 Line-protocol driver (native executable `qrdrv`, Mathlib-free).
 One request per line: `<op> <arg> ...` (whitespace separated); one reply per line.
@@ -127,6 +128,50 @@ def handle (toks : List String) : Option String :=
       let x := if 20 * d ≥ 10 * (n * n) then 20 * d - 10 * (n * n) else 10 * (n * n) - 20 * d
       pure ("ok " ++ toString ((x / (n * n)) * 10))
   | ["spec.read", m] => do let m ← parseBMat m; pure (specRead m)
+  | ["spec.checkblocks", v, l, cw] => do
+      let v ← parseNat v; let l ← parseNat l; let cw ← parseList cw
+      let l ← Spec.Level.ofIndicator l
+      let blocks := Spec.blocksOf v l cw
+      let bad := match blocks.zipIdx.find? fun (b, _) => !Spec.isCodeword (Spec.eccLen v l) (b.data ++ b.ec) with
+        | some (_, i) => toString i | none => "-1"
+      let lensOK := cw.length == Spec.totalCodewords v
+      pure s!"ok {bad} {if lensOK then 1 else 0} {fmtList (blocks.flatMap (·.data))}"
+  | ["spec.fits", v, l, segs] => do
+      let v ← parseNat v; let l ← parseNat l
+      let l ← Spec.Level.ofIndicator l
+      let segs ← parseBlocks segs
+      let segs ← segs.mapM fun (m, n) => (Spec.Mode.ofIndicator m).map (·, n)
+      pure ("ok " ++ (if Spec.fits v l segs then "1" else "0") ++ s!" {Spec.streamBits v segs} {Spec.capacityBits v l}")
+  | ["typeinfo", v, l, t, mask] => do
+      let v ← parseNat v; let l ← parseNat l; let t ← parseBool t; let mask ← parseNat mask
+      let n := v * 4 + 17
+      let m := setupTypeInfo n l (Mat.empty n) t mask
+      let m := if v ≥ 7 then setupTypeNumber n v m t else m
+      pure ("ok " ++ fmtMat m)
+  | ["spec.fmtcheck", v, l, mask, m] => do
+      let v ← parseNat v; let l ← parseNat l; let mask ← parseNat mask; let m ← parseBMat m
+      let S := symOfBMat m
+      let w := Spec.formatWord (l * 8 + mask)
+      let f1 := Spec.wordAt S Spec.fmtPos1 == w
+      let f2 := Spec.wordAt S (Spec.fmtPos2 S.n) == w
+      let vi := Spec.versionInfoOK S v
+      let dm := S.get (S.n - 8) 8
+      pure s!"ok {if f1 then 1 else 0} {if f2 then 1 else 0} {if vi then 1 else 0} {if dm then 1 else 0}"
+  | ["spec.stream", v, cw] => do
+      let v ← parseNat v; let cw ← parseList cw
+      match Spec.readStream v (cw.flatMap Spec.byteBits) with
+      | none => pure "fail data-stream-invalid"
+      | some r => pure s!"ok {if r.tailConformant then 1 else 0} {fmtPSegs r.segs}"
+  | ["spec.bestmask", m] => do
+      let m ← parseBMat m
+      let S := symOfBMat m
+      match Spec.versionOfSize S.n, Spec.readFormat S with
+      | some v, .ok (_, mk) => pure s!"ok {mk} {Spec.chooseMask S v mk}"
+      | _, _ => pure "fail unreadable"
+  | "argmin" :: xs => do
+      let xs ← xs.mapM parseNat
+      let (_, pattern) := (List.range xs.length).foldl (fun (st : Nat × Nat) i => pickMask st i (xs.getD i 0)) (0, 0)
+      pure s!"ok {pattern} {Spec.argminFirst xs.length fun i => xs.getD i 0}"
   | ["spec.penalty", m] => do let m ← parseBMat m; pure ("ok " ++ toString (Spec.penalty m))
   | ["spec.n1", m] => do let m ← parseBMat m; pure ("ok " ++ toString (Spec.N1 m m.length))
   | ["spec.n2", m] => do let m ← parseBMat m; pure ("ok " ++ toString (Spec.N2 m))
